@@ -143,6 +143,7 @@ def random_input(rng, harness, variant, cfg):
     if harness in ("layout", "scn_scalar"):
         rep["tensor"] = [random_row(rng, sc, i) for i in range(len(sc["addrs"]))]
         rep["host_index"] = rng.randrange(len(sc["addrs"]))
+        rep["prev_layout"] = rng.choice(["other", "same-names-permuted", "same-names-permuted", "same-names-other-bounds"])
         return rep
     if harness == "hv_perform_action":
         rep["vector"] = random_row(rng, sc, rng.randrange(len(sc["addrs"])))
